@@ -11,7 +11,8 @@ pub struct OpRec {
     pub tag: OpTag,
     pub a: Option<u32>,
     pub mid: Option<u64>,
-    pub ms: Option<u64>,
+    /// timeout in microseconds (u64::MAX = Duration::MAX)
+    pub us: Option<u64>,
     pub via: String,
     pub budget: bool,
     pub inv_seq: u64,
@@ -203,7 +204,7 @@ pub struct History<'a> {
 fn collect_msgs<'a>(ops: &'a [Op], out: &mut BTreeMap<u64, &'a Msg>) {
     for o in ops {
         match o {
-            Op::Tell { m, .. } | Op::TellT { m, .. } | Op::Ask { m, .. } | Op::AskT { m, .. } | Op::AskJoin { m, .. } => {
+            Op::Tell { m, .. } | Op::TellT { m, .. } | Op::Ask { m, .. } | Op::AskT { m, .. } | Op::AskJoin { m, .. } | Op::TellUs { m, .. } | Op::AskUs { m, .. } => {
                 out.insert(m.id, m);
                 collect_msgs(&m.steps, out);
             }
@@ -284,7 +285,7 @@ impl<'a> History<'a> {
                         ar.spawn_panic = Some(msg.clone());
                     }
                 }
-                EvKind::Inv { who, k, op, a, mid, ms, via, budget } => {
+                EvKind::Inv { who, k, op, a, mid, us, via, budget } => {
                     let idx = h.ops.len();
                     h.ops.push(OpRec {
                         who: *who,
@@ -292,7 +293,7 @@ impl<'a> History<'a> {
                         tag: *op,
                         a: *a,
                         mid: *mid,
-                        ms: *ms,
+                        us: *us,
                         via: via.clone(),
                         budget: *budget,
                         inv_seq: e.seq,
@@ -439,7 +440,7 @@ impl<'a> History<'a> {
                             return Some(x);
                         }
                     }
-                    Op::Tell { m, .. } | Op::TellT { m, .. } | Op::Ask { m, .. } | Op::AskT { m, .. } | Op::AskJoin { m, .. } => {
+                    Op::Tell { m, .. } | Op::TellT { m, .. } | Op::Ask { m, .. } | Op::AskT { m, .. } | Op::AskJoin { m, .. } | Op::TellUs { m, .. } | Op::AskUs { m, .. } => {
                         if let Some(x) = find_fork(&m.steps, id) {
                             return Some(x);
                         }
